@@ -29,6 +29,7 @@ func checkC03(c *Ctx) {
 	c.Rule("C03/R3", "the iteration-count fast path cannot overflow: for each word size the digit-count bound d of the unchecked path satisfies 10^d-1 <= MaxInt of that size; everything else goes to the checked parser")
 	c.Rule("C03/R4", "exponent range check: in the decimal-to-bits conversion every increase of the binary exponent is followed, before the bits are assembled, by the test against the format's exponent limit (otherwise out-of-range text yields a silent Inf/garbage instead of a range error)")
 
+	c.Rule("C03/R8", "infinities and NaN: the port's recogniser accepts exactly strconv's spellings (optional sign on inf/infinity, none on nan), comparing the whole input with the literal, and maps each to the same value")
 	c.Rule("C03/R7", "mantissas longer than the 800-digit decimal buffer keep their magnitude: the counter of dropped integer digits in decimal.set grows exactly for an unstored digit before the decimal point, and every decimal point position taken from the stored digit count adds it (the one place where the port is deliberately more correct than strconv's slow path)")
 	c.Rule("C03/R6", "saturation contract between the integer parsers: every range-error return of ParseUint carries (1<<bitSize)-1, which ParseInt (which ignores that error) needs in order to re-derive the range error from its cutoff comparison")
 	c.Rule("C03/R5", "port fidelity: each function of the byte-slice port that was carried over from the standard library's strconv unchanged agrees with the strconv function of the same name in $GOROOT, region by region (symbolic path tables: same path conditions, same calls in the same order, same stores, same results and same loop-variable updates after renaming the package and erasing register numbers)")
@@ -40,6 +41,7 @@ func checkC03(c *Ctx) {
 	c03Port(c, "C03/R5")
 	c03Saturate(c, p)
 	c03Dropped(c, p)
+	c03Special(c, p)
 	if c.Tier == "thorough" {
 		if c.override == nil {
 			c03Drift(c, p)
@@ -1069,4 +1071,73 @@ func c03Dropped(c *Ctx, p *Prog) {
 	}
 	c.Floor(R, "updates of the dropped-digit counter", nUpd, 4)
 	c.Floor(R, "decimal point positions taken from the digit count", nDp, 2)
+}
+
+// c03Special: the port's own recogniser of infinities and NaN accepts exactly strconv's spellings: an optional sign on
+// inf/infinity, none on nan, the whole input compared (case-insensitively) with the literal.
+func c03Special(c *Ctx, p *Prog) {
+	const R = "C03/R8"
+	fn := p.Fn("benchfmt/internal/bytesconv", "special")
+	if fn == nil {
+		c.Undecided(R, "anchor:special", "", "not found")
+		return
+	}
+	site := p.pos(fn.Pos())
+	mk := func() *e6Interp { return &e6Interp{PureCall: func(f *types.Func) bool { return true }, MaxAtoms: 20} }
+	outs, why := e6Enumerate(mk, fn.Blocks[0], nil, nil, 4096)
+	if why != "" {
+		c.Undecided(R, "special:table", site, why)
+		return
+	}
+	want := map[string]string{"+inf": "+Inf", "+infinity": "+Inf", "inf": "+Inf", "infinity": "+Inf", "-inf": "-Inf", "-infinity": "-Inf", "nan": "NaN"}
+	seen := map[string]bool{}
+	n := 0
+	for _, o := range outs {
+		if o.Term != "return" || len(o.Results) != 2 {
+			continue
+		}
+		if b, ok := o.Results[1].boolConst(); !ok || !b {
+			continue
+		}
+		n++
+		// the comparison that succeeded
+		lit, whole := "", false
+		for k, v := range o.Assign {
+			s := o.AtomSyms[k]
+			if v && s.Op == "call" && strings.HasSuffix(s.Name, ".equalIgnoreCase") && len(s.Args) == 2 {
+				if l, ok := constString2(s.Args[1]); ok {
+					lit = l
+					whole = s.Args[0].Op == "param"
+				}
+			}
+		}
+		val := "?"
+		rs := o.Results[0].String()
+		switch {
+		case strings.Contains(rs, "math.NaN"):
+			val = "NaN"
+		case strings.Contains(rs, "math.Inf(1)"):
+			val = "+Inf"
+		case strings.Contains(rs, "math.Inf(-1)"):
+			val = "-Inf"
+		}
+		key := fmt.Sprintf("special[%q]#%d", lit, n)
+		switch {
+		case lit == "" || !whole:
+			c.Bad(R, key, site, "a special value ("+val+") is accepted after comparing something other than the whole input with a literal spelling (a stripped sign, a prefix): spellings strconv rejects, such as \"+nan\" or \"-NaN\", are then read as numbers instead of yielding a syntax error")
+		case want[lit] == "":
+			c.Bad(R, key, site, fmt.Sprintf("the spelling %q is accepted as %s; strconv accepts only [+-]inf, [+-]infinity and nan", lit, val))
+		default:
+			seen[lit] = true
+			c.Check(want[lit] == val, R, key, site, fmt.Sprintf("%q reads as %s", lit, val), fmt.Sprintf("%q reads as %s, strconv gives %s", lit, val, want[lit]))
+		}
+	}
+	var missing []string
+	for l := range want {
+		if !seen[l] {
+			missing = append(missing, l)
+		}
+	}
+	sort.Strings(missing)
+	c.Check(len(missing) == 0, R, "special:all-spellings", site, "every spelling strconv accepts is accepted", fmt.Sprintf("the spellings %v, which strconv accepts, are not recognised", missing))
 }
